@@ -12,8 +12,8 @@ META = {
     "technique": "Coq proofs over an exact Z[omega]/sqrt2^k matrix model of Clifford+T words (induction over words) + per-run exact word multiplication, unitarity and rational-enclosure distance check inside Coq (vm_compute) on the words returned by the real synthesis functions",
     "design_ref": "DESIGN.md §3 C15",
     "text": "Kernel-checked for ALL words: the exact denotation of a Clifford+T word over Z[omega] with a sqrt2-power denominator is multiplicative under concatenation (word_denote_app) and exactly unitary (word_unitary); the output alphabet is a decidable predicate (gates_in_set); every Ross-Selinger candidate [[u,-t*],[t,u*]]/sqrt2^k with u*u+t*t=2^k is exactly unitary (candidate_unitary, all u,t,k); entrywise proportionality is reflexive/scale-invariant (exact-stage tie); the rational interval test used for the distance is sound (enclosure_check_sound: if it passes and the 16 target numbers lie in their enclosures then |tr(M^dagger T)|^2 >= 2^k (2-eps^2)^2, i.e. operator-norm distance up to global phase <= eps). Per run, the real rs_decomposition, sk_decomposition and clifford_t_decomposition (both methods; every gate they approximate) are executed on boundary and random angles and precisions 1e-1..1e-8; every returned word is multiplied exactly inside Coq, checked for alphabet, exact unitarity, the enclosure-based distance bound, and (rs) proportionality to the exact DyadicMatrix the implementation synthesised. A float oracle additionally checks the distance including the returned GlobalPhase and the whole-circuit error of the transform.",
-    "note": "NOT proved: completeness/termination of the Ross-Selinger grid search, Diophantine solver and Solovay-Kitaev recursion (that a word within eps is FOUND) -- this is validated per run only; _ma_normal_form's loop invariant is not transcribed (its output is checked exactly per run instead). The distance is the documented operator norm up to global phase; the distance WITH the returned GlobalPhase, and the whole-circuit error of the transform, are checked in float64 only. Target enclosures (cos/sin/sqrt2 to 80 digits) come from mpmath interval arithmetic and are trusted; the soundness theorem is stated over Q for abstract enclosed numbers. An allowance for the float64 resolution of the implementations' own acceptance tests is applied (rs: eps^2+4e-15, sk: eps+1e-10); strict failures inside the allowance are counted as 'marginal'. The documented escapes (max_search_trials / max_depth exhausted -> error may exceed eps) are classified with read-only hooks (trial counter, group-commutator counter) and counted. qp.gridsynth is a Catalyst pass front-end without a tape implementation in this checkout (NotImplementedError; confirmed each run) and is therefore not executable here: only method='gridsynth' of clifford_t_decomposition is covered.",
-    "assumptions": ["mpmath.iv enclosures of cos, sin, sqrt(2) at 80 digits contain the true values",
+    "note": "NOT proved: completeness/termination of the Ross-Selinger grid search, Diophantine solver and Solovay-Kitaev recursion (that a word within eps is FOUND) -- this is validated per run only; _ma_normal_form's loop invariant is not transcribed (its output is checked exactly per run instead). The distance is the documented operator norm up to global phase; the distance WITH the returned GlobalPhase, and the whole-circuit error of the transform, are checked in float64 only. Target enclosures (cos/sin/sqrt2 from mpmath interval arithmetic at 60 digits, rounded outwards to integers at scale 2^128) are trusted; the soundness theorem is stated over Q for abstract enclosed numbers (no real numbers in Coq), and the identification of the two integer linear forms with 2Re/2Im tr(M^dagger T) rests on re_im_multiplicative/linear_forms_meaning plus the float cross-check 'model-vs-float'. An allowance for the float64 resolution of the implementations' own acceptance tests is applied (rs: eps^2+4e-15, sk: eps+1e-10); strict failures inside the allowance are counted as 'marginal'. The documented escapes (max_search_trials / max_depth exhausted -> error may exceed eps) are classified with read-only hooks (trial counter, group-commutator counter) and counted. qp.gridsynth is a Catalyst pass front-end without a tape implementation in this checkout (NotImplementedError; confirmed each run) and is therefore not executable here: only method='gridsynth' of clifford_t_decomposition is covered. Solovay-Kitaev words longer than ~6000 gates are only exercised in the thorough tier (exact evaluation of a 22k-gate word costs ~10 s). Three genuine deviations of the pinned tree are reported under stable keys: finding:rs-grid-search-aborted-by-float-error (eps <~ 1.3e-8: float cancellation inside GridIterator raises, is swallowed, and a ~1e-3 fallback is returned without exhausting max_search_trials), finding:ct-phaseshift-3pi/4-replaced-by-T (PhaseShift(k pi/4), k=3,5 mod 8, mapped to T/Adjoint(T): off by Pauli Z), finding:ct-angle-within-1e-6-of-k*pi-snapped (atol 1e-6 snapping exceeds epsilon < ~5e-7).",
+    "assumptions": ["mpmath.iv enclosures of cos, sin, sqrt(2) at 60 digits contain the true values",
                     "PennyLane's own matrices of H,S,T,X,Y,Z,Adjoint(S),Adjoint(T),Identity are the standard ones (cross-checked in float64 against the exact model each run)",
                     "QJIT / Catalyst code paths (is_qjit=True, qp.gridsynth) are outside the model"],
     "trusted": ["hand-written model coq/Disc/CliffordTModel.v tied to /repo by per-run exact evaluation only",
@@ -367,6 +367,8 @@ def run(ctx):
                 circ["max_ratio"] = max(circ["max_ratio"], o["d_circ"] / c["eps"])
 
     hist.update(stats)
+    ab = [float(it[4]) for it in items if classify(it[1], it[6], it[5]) == "abort" and it[1] == "rs"]
+    hist["abort_eps_range"] = [min(ab), max(ab)] if ab else None
     hist["escape_cases"] = [f"{it[1]} {it[2]}{it[3]} eps={it[4]} kw={it[5]}" for it in items
                             if classify(it[1], it[6], it[5]) == "escape"][:12]
     ctx.coverage.update({
